@@ -252,7 +252,11 @@ func DriveDialReply(cfg byte, data []byte, checkAlloc bool) (sig, what string, n
 	if cfg&8 != 0 {
 		d.Subprotocols = []string{"chat"}
 	}
-	c, resp, err, nc := scriptedDial(d, "ws://fuzz.example/p", nil, func(req []byte) []xport.Chunk {
+	dialURL := "ws://fuzz.example/p"
+	if cfg&16 != 0 {
+		dialURL = "wss://fuzz.example/p" // TLS done by the application's NetDialTLSContext, TLSClientConfig nil
+	}
+	c, resp, err, nc := scriptedDial(d, dialURL, nil, func(req []byte) []xport.Chunk {
 		rep := bytes.ReplaceAll(data, []byte("$ACCEPT$"), []byte(acceptDigest(reqHeader(req, "Sec-WebSocket-Key"))))
 		return []xport.Chunk{{Data: rep}}
 	})
